@@ -295,7 +295,70 @@ class PathSpec(OpsSpec):
         return None
 
 
+class DiscoSpec(OpsSpec):
+    engine = "E-DISCO"
+    engine_mod = "disco"
+    run_cls = "DiscoRun"
+    level = "exploration"
+    quick_budget = 40
+    thorough_budget = 420
+    rule = ("deployment layouts from the grid prefix in {/, /dav/, /a/b/} x principal in {/user/, /user, /users/alice/, /a/b/c} x {defaults, autocreate} x {aiohttp, wsgi} "
+            "(48 layouts; sampled in quick, walked completely in thorough) x restart count 0-3 x entry via root or /.well-known/caldav|carddav; a client follows only "
+            "returned hrefs root -> current-user-principal -> home sets -> Depth 1 -> typed collections; user data, display names and sync tokens written between "
+            "restarts must be identical afterwards. Non-trivial: runs with >=1 restart and >=1 piece of user data verified; distinct by (layout, restarts, entry)")
+    assumptions = ("the configuration grid is finite and covered in the thorough tier; user-data histories on top of it are seeded samples",
+                   "WSGI start-up is the real module body of xandikos/wsgi.py driven by its environment variables")
+
+    def nontrivial_keys(self, res):
+        lay = res.get("layout") or []
+        if lay and lay[4] >= 1 and (res.get("stats") or {}).get("data_verified", 0) >= 1:
+            return [json.dumps(lay)]
+        return []
+
+    def collect(self, agg, res):
+        lay = res.get("layout") or []
+        if lay:
+            agg.extra.setdefault("layouts", set()).add(tuple(lay[:4]))
+        agg.add_stats({"hrefs_followed": res.get("hops", 0)})
+
+    def extra_coverage(self, agg):
+        n = len(agg.extra.get("layouts", ()))
+        return {"layouts_covered": n, "layouts_total": 48, "exhaustive": False}
+
+    def essential(self, agg):
+        if agg.stats.get("hrefs_followed", 0) < 50:
+            return "fewer than 50 hrefs followed"
+        return None
+
+    def minimise(self, prop, v, res, farm):
+        want = (v["oracle"], json.dumps(v["sig"], sort_keys=True))
+        cfg = dict(res["cfg"])
+
+        def still(c):
+            outs = {}
+            farm.map(self.replay, [({"prop": prop, "cfg": c, "ops": []}, "min-C18")], on_result=lambda i, a, o: outs.__setitem__(i, o))
+            o = outs.get(0, {})
+            return bool(o.get("ok") and any((x["oracle"], json.dumps(x["sig"], sort_keys=True)) == want for x in o["result"].get("violations", []))), o
+
+        for key, vals in (("restarts", [0, 1]), ("writes", [1]), ("entry", ["root"])):
+            for val in vals:
+                if cfg.get(key) == val:
+                    break
+                c2 = dict(cfg, **{key: val})
+                ok, _ = still(c2)
+                if ok:
+                    cfg = c2
+                    break
+        ok, o = still(cfg)
+        if not ok:
+            return None
+        x = [x for x in o["result"]["violations"] if (x["oracle"], json.dumps(x["sig"], sort_keys=True)) == want][0]
+        return self.replay_doc(prop, dict(v, detail=x["detail"]), {"cfg": cfg, "ops": o["result"]["ops"], "digest": o["result"].get("digest")})
+
+
 def spec_for(prop):
+    if prop == "C18":
+        return DiscoSpec()
     if prop == "C13":
         return PathSpec()
     if prop == "C10":
